@@ -36,7 +36,7 @@ let () =
     while true do
       let line = input_line stdin in
       let ans =
-        try string_of_bytes (Model.handle_all3 (bytes_of_string line))
+        try string_of_bytes (Model.handle_all4 (bytes_of_string line))
         with Stack_overflow -> "stackoverflow" | Out_of_memory -> "oom" in
       print_string ans;
       print_char '\n';
